@@ -175,7 +175,7 @@ def check_proofs(prop: str, thorough: bool = False) -> dict:
     if SCRATCH:
         SCRATCH.mkdir(parents=True, exist_ok=True)
         extra = ["-o", str(SCRATCH / f"{prop}.vo")]
-    rc, out = sh(["coqc"] + COQ_FLAGS[:6] + extra + [f"Props/{prop}.v"], cwd=COQ, timeout=1200)
+    rc, out = sh(["coqc"] + COQ_FLAGS[:9] + extra + [f"Props/{prop}.v"], cwd=COQ, timeout=1200)
     if rc != 0:
         res["log"] = out[-4000:]
         res["failed_theorem"] = f"Props/{prop}.v"
@@ -204,7 +204,7 @@ def check_proofs(prop: str, thorough: bool = False) -> dict:
         res["log"] += f"\ndisallowed axioms: {disallowed}"
         res["failed_theorem"] = "axioms: " + ",".join(disallowed)
     if thorough and res["ok"]:
-        rc, out = sh(["coqchk", "-silent", "-o"] + COQ_FLAGS[:6] + [f"AM.Props.{prop}"], cwd=COQ,
+        rc, out = sh(["coqchk", "-silent", "-o"] + COQ_FLAGS[:9] + [f"AM.Props.{prop}"], cwd=COQ,
                      timeout=3000)
         res["coqchk_rc"] = rc
         res["coqchk_tail"] = out[-1500:]
@@ -346,7 +346,7 @@ class Report:
                        "rerun": f"./check {self.prop} --replay replays/{self.prop}/{h}.json"})
         path.write_text(json.dumps(replay, indent=1, default=str))
         suffix = " no-failing-input-found" if no_failing_input else ""
-        print(f"VIOLATION property={self.prop} replay={path.relative_to(VERIF)}{suffix}")
+        print(f"VIOLATION property={self.prop} replay={path.relative_to(VERIF) if not SCRATCH else path}{suffix}")
         print(f"  {what}")
 
     # -- evidence
